@@ -14,7 +14,7 @@ ID = 'C11'
 RULE = ('(a) exhaustive: every eligibility class-count vector (c_fixed, t_fixed, cx, tx, ct, ctx, x_fixed) with 1..4 geos (quick) / '
         '1..6 (thorough) x settings (treatment range x control range x geo-ratio tolerance; quick: a rotating sixth of the 180 '
         'settings per vector, thorough: all 180); the object is built on a small synthetic panel whose geo order is a drawn '
-        'permutation of the classes; (b) Hypothesis: vectors up to 9 geos with drawn ranges/tolerances and n_geos_max (count over the admitted geos), vectors of 25-45 geos in a few classes checked against an exact polynomial (generating-function) count, and vectors (up to ~40 geos, mostly pinned) whose group sizes sit exactly on the geo-ratio boundary for tolerance (l-s)/s, always listed. '
+        'permutation of the classes (eligibility columns int64, bool or Int64); (b) Hypothesis: vectors up to 9 geos with drawn ranges/tolerances and n_geos_max (count over the admitted geos), vectors of 25-45 geos in a few classes checked against an exact polynomial (generating-function) count, and vectors (up to ~40 geos, mostly pinned) whose group sizes sit exactly on the geo-ratio boundary for tolerance (l-s)/s, always listed. '
         'Non-trivial = some setting of the case has count > 0 and >= 2 non-free classes are present; distinct by spec hash.')
 BUDGET = {'quick': 160, 'thorough': 4000}
 FLOOR = {'quick': 100, 'thorough': 800}
@@ -135,6 +135,11 @@ def build(spec):
     rows += [(dates[d], g, float(series[d])) for d in range(8)]
   df = pd.DataFrame(rows, columns=['date', 'geo', 'response'])
   el = pd.DataFrame([(g,) + ROW[cls_of[g]] for g in ids], columns=['geo', 'control', 'treatment', 'exclude'])
+  kind = spec['perm_seed'] % 5
+  if kind in (1, 2):
+    # flags as produced by a comparison (bool) or in a nullable dtype; one column or all three
+    for c in (['control', 'treatment', 'exclude'] if spec['perm_seed'] % 2 else ['treatment']):
+      el[c] = el[c].astype(bool) if kind == 1 else el[c].astype('Int64')
   return df, el, cls_of
 
 
